@@ -11,7 +11,6 @@ import (
 	"fmt"
 	"testing"
 
-	commonpb "go.temporal.io/api/common/v1"
 	"google.golang.org/grpc"
 	"google.golang.org/grpc/codes"
 	"google.golang.org/grpc/metadata"
@@ -40,63 +39,6 @@ const (
 	c16AllowedRemote   = "r-allowed-ns"
 	c16ForbiddenRemote = "r-forbidden-ns"
 )
-
-// c16FillNamespaces sets every EMPTY namespace-name field of every present message (also inside event blobs) to v.
-// The statement is silent about empty names (the code refuses them), so "allowed everywhere else" cases carry none.
-func c16FillNamespaces(m protoreflect.Message, v string) {
-	fds := m.Descriptor().Fields()
-	for i := 0; i < fds.Len(); i++ {
-		fd := fds.Get(i)
-		if vfshared.IsNamespaceNameField(fd) {
-			if od := fd.ContainingOneof(); od != nil && !od.IsSynthetic() && m.WhichOneof(od) != fd {
-				continue
-			}
-			if m.Get(fd).String() == "" {
-				m.Set(fd, protoreflect.ValueOfString(v))
-			}
-			continue
-		}
-		if !m.Has(fd) {
-			continue
-		}
-		val := m.Get(fd)
-		switch {
-		case fd.IsMap():
-			if fd.MapValue().Message() != nil {
-				val.Map().Range(func(_ protoreflect.MapKey, mv protoreflect.Value) bool { c16FillNamespaces(mv.Message(), v); return true })
-			}
-		case fd.Message() == nil:
-		case fd.Message().FullName() == "temporal.api.common.v1.DataBlob":
-			if !vfshared.EventBlobFields[string(fd.FullName())] {
-				continue
-			}
-			fix := func(bm protoreflect.Message) {
-				blob := bm.Interface().(*commonpb.DataBlob)
-				evs, err := vfshared.DecodeEvents(blob)
-				if err != nil {
-					return
-				}
-				for _, ev := range evs {
-					c16FillNamespaces(ev.ProtoReflect(), v)
-				}
-				blob.Data = vfshared.EncodeEvents(evs).Data
-			}
-			if fd.IsList() {
-				for j := 0; j < val.List().Len(); j++ {
-					fix(val.List().Get(j).Message())
-				}
-			} else {
-				fix(val.Message())
-			}
-		case fd.IsList():
-			for j := 0; j < val.List().Len(); j++ {
-				c16FillNamespaces(val.List().Get(j).Message(), v)
-			}
-		default:
-			c16FillNamespaces(val.Message(), v)
-		}
-	}
-}
 
 func c16Enum(d protoreflect.MessageDescriptor) []vfshared.Path {
 	return vfshared.EnumPaths(d, vfshared.IsNamespaceNameField, vfshared.EnumOptions{MaxRepeat: 1, FailureExtra: 1, ThroughBlobs: true})
@@ -136,7 +78,7 @@ func c16Run(c c16Case) error {
 	if c.Companion {
 		c12AddCompanion(req.ProtoReflect())
 	}
-	c16FillNamespaces(req.ProtoReflect(), allowedName)
+	vfshared.FillEmptyNamespaces(req.ProtoReflect(), allowedName)
 	original := proto.Clone(req)
 	// merged paths sharing a oneof or a singular blob overwrite each other: take the truth from the final message
 	probe := &vfshared.RefTranslator{NS: map[string]string{forbiddenName: forbiddenName}}
